@@ -32,11 +32,11 @@ def bounds(tier, explicit=True):
         return {'buffersize': [3, 4], 'max_buffers': [2], 'window_size_max': 6, 'offset_max': 8,
                 'file_extra_max': 0, 'arg_range': [-8, 8], 'sequence_len': 2}
     if explicit:
-        return {'buffersize': [1, 2, 3, 4, 5, 8], 'max_buffers': [2, 3], 'window_size_max': 16, 'offset_max': 16,
-                'file_extra_max': 8, 'arg_range': [-20, 20], 'sequence_len': 2,
-                'lazy_mode': {'window_size_max': 9, 'arg_range': [-12, 12]}}
-    return {'buffersize': [1, 2, 3, 4, 5, 8], 'max_buffers': [2, 3], 'window_size_max': 9, 'offset_max': 16,
-            'file_extra_max': 0, 'arg_range': [-12, 12], 'sequence_len': 2}
+        return {'buffersize': [2, 3, 4, 5], 'max_buffers': [2, 3], 'window_size_max': 12, 'offset_max': 12,
+                'file_extra_max': 8, 'arg_range': [-15, 15], 'sequence_len': 2,
+                'lazy_mode': {'window_size_max': 8, 'arg_range': [-10, 10]}}
+    return {'buffersize': [2, 3, 4, 5], 'max_buffers': [2, 3], 'window_size_max': 8, 'offset_max': 12,
+            'file_extra_max': 0, 'arg_range': [-10, 10], 'sequence_len': 2}
 
 
 def OBLIGATIONS(tier):
